@@ -9,6 +9,11 @@ env = dict(os.environ, PYTHONPATH="/repo/src")
 def sh(cmd, **kw):
     return subprocess.run(cmd, shell=True, capture_output=True, text=True, **kw)
 assert sh("git -C /repo status --porcelain").stdout.strip() == "", "/repo not clean"
+# evidence files must describe the unchanged tree: save them and restore at the end
+import shutil, tempfile
+_ev_backup = tempfile.mkdtemp(prefix="ev_", dir="/verif/build")
+for f in os.listdir("/verif/evidence"):
+    shutil.copy(os.path.join("/verif/evidence", f), _ev_backup)
 res = {"seed": d, "tier": tier}
 r = sh(f"git -C /repo apply --check {d}/patch.diff")
 if r.returncode != 0:
@@ -37,4 +42,7 @@ res["demo_without_patch"] = r.returncode
 # leave no stray replay files from the seeded run
 for f in os.listdir("/verif/replays"):
     os.remove(os.path.join("/verif/replays", f))
+for f in os.listdir(_ev_backup):
+    shutil.copy(os.path.join(_ev_backup, f), "/verif/evidence")
+shutil.rmtree(_ev_backup, ignore_errors=True)
 print(json.dumps(res, indent=1))
